@@ -34,7 +34,12 @@ type loadSpec struct {
 type loadExtra struct {
 	Known   []iface.IPFSLogEntry // entries the caller says it already has (FetchOptions.Exclude)
 	Timeout time.Duration        // a generous timeout
-	SortFn  bool                 // pass the log's ordering as FetchOptions.SortFn (manifest loader)
+	SortFn  bool                 // pass the log's ordering as FetchOptions.SortFn (manifest and entry-hash loaders)
+	// Progress: pass a progress channel that a goroutine drains; what it reported is left in Reported
+	Progress bool
+	Reported *[]string
+	// DefaultIO: leave LogOptions.IO unset when the log uses the default codec (the loaders then pick the default themselves)
+	DefaultIO bool
 }
 
 func doLoad(ctx context.Context, api coreiface.CoreAPI, w *sim.World, loader string, manifest cid.Cid, jsonLog *iface.JSONLog, entries []iface.IPFSLogEntry, hash cid.Cid, length *int, conc int, exclude iface.ExcludeFunc, timeout int, extra ...loadExtra) (*ipfslog.IPFSLog, error) {
@@ -44,19 +49,36 @@ func doLoad(ctx context.Context, api coreiface.CoreAPI, w *sim.World, loader str
 	if len(extra) > 0 {
 		x = extra[0]
 	}
+	if x.DefaultIO && world.Codec(w.Prog.Codec) == world.CodecDefault {
+		lo.IO = nil
+	}
 	var fsort iface.EntrySortFn
 	if x.SortFn {
 		fsort = world.SortFn(w.Order)
 	}
+	var progress chan iface.IPFSLogEntry
+	done := make(chan struct{})
+	if x.Progress {
+		progress = make(chan iface.IPFSLogEntry) // unbuffered: the fetcher hands every entry over
+		go func() {
+			defer close(done)
+			for e := range progress {
+				if x.Reported != nil && e != nil {
+					*x.Reported = append(*x.Reported, e.GetHash().String())
+				}
+			}
+		}()
+		defer func() { close(progress); <-done }()
+	}
 	switch loader {
 	case "manifest":
-		return ipfslog.NewFromMultihash(ctx, api, id, manifest, lo, &ipfslog.FetchOptions{Length: length, Concurrency: conc, ShouldExclude: exclude, Exclude: x.Known, Timeout: x.Timeout, SortFn: fsort})
+		return ipfslog.NewFromMultihash(ctx, api, id, manifest, lo, &ipfslog.FetchOptions{Length: length, Concurrency: conc, ShouldExclude: exclude, Exclude: x.Known, Timeout: x.Timeout, SortFn: fsort, ProgressChan: progress})
 	case "json":
-		return ipfslog.NewFromJSON(ctx, api, id, jsonLog, lo, &iface.FetchOptions{Length: length, Concurrency: conc, Timeout: x.Timeout})
+		return ipfslog.NewFromJSON(ctx, api, id, jsonLog, lo, &iface.FetchOptions{Length: length, Concurrency: conc, Timeout: x.Timeout, ProgressChan: progress})
 	case "entries":
-		return ipfslog.NewFromEntry(ctx, api, id, entries, lo, &iface.FetchOptions{Length: length, Concurrency: conc, Exclude: x.Known, Timeout: x.Timeout})
+		return ipfslog.NewFromEntry(ctx, api, id, entries, lo, &iface.FetchOptions{Length: length, Concurrency: conc, Exclude: x.Known, Timeout: x.Timeout, ProgressChan: progress})
 	case "hash":
-		return ipfslog.NewFromEntryHash(ctx, api, id, hash, lo, &ipfslog.FetchOptions{Length: length, Concurrency: conc, ShouldExclude: exclude, Exclude: x.Known, Timeout: x.Timeout})
+		return ipfslog.NewFromEntryHash(ctx, api, id, hash, lo, &ipfslog.FetchOptions{Length: length, Concurrency: conc, ShouldExclude: exclude, Exclude: x.Known, Timeout: x.Timeout, SortFn: fsort, ProgressChan: progress})
 	}
 	return nil, fmt.Errorf("harness: unknown loader %s", loader)
 }
